@@ -325,7 +325,11 @@ fn gen_setup(ctx: &Ctx, rng: &mut Rng) -> Setup {
     }
     let use_path = rng.chance(1, 2);
     let use_toml = rng.chance(2, 3);
-    let path_spelling = rng.pick(&["/w/p", "./p", "p"]).to_string();
+    // --path may also name the default directory explicitly (a value equal to the default is still a
+    // given value)
+    let path_spelling = rng
+        .pick(&["/w/p", "./p", "p", "p/", "./contracts", "contracts", "/w/contracts", "./t"])
+        .to_string();
     let toml_file = rng.pick(&["/w/cfg.toml", "/w/conf/Solstat.toml"]).to_string();
     let mut toml = None;
     if use_toml {
@@ -691,6 +695,10 @@ impl Property for C14 {
         r.probe("unknown_name_in_toml", j.has_unknown);
         r.probe("toml_path_decides", s.path_arg.is_none() && s.toml.is_some() && !j.has_unknown);
         r.probe("path_flag_overrides_toml", s.path_arg.is_some() && s.toml.is_some());
+    r.probe(
+        "path_flag_spells_the_default_dir",
+        s.path_arg.as_deref() == Some("./contracts") && s.toml.is_some() && !j.has_unknown,
+    );
         r.probe("default_contracts_used", s.path_arg.is_none() && s.toml.is_none());
         r.probe("failed_status_seen", j.status != 0);
         r.interleavings.push(j.decisions);
@@ -812,6 +820,7 @@ impl Property for C14 {
             "unknown_name_in_toml",
             "toml_path_decides",
             "path_flag_overrides_toml",
+            "path_flag_spells_the_default_dir",
             "default_contracts_used",
             "failed_status_seen",
         ]
